@@ -128,6 +128,79 @@ theorem parseExt_strLens (eid : Nat) (payload : Bytes) : ∀ n ∈ (parseExt eid
     · rename_i toks rest h
       exact (tokenize_bound h).1
 
+/-! ### nesting bound of accepted payloads -/
+
+/-- Deepest nesting level entered when walking `ts` starting inside `d` open containers. -/
+def nestMax : List Tok → Nat → Nat
+  | [], _ => 0
+  | .lst :: r, d => Nat.max (d + 1) (nestMax r (d + 1))
+  | .dct :: r, d => Nat.max (d + 1) (nestMax r (d + 1))
+  | .fin :: r, d => nestMax r (d - 1)
+  | .int _ :: r, d => nestMax r d
+  | .str _ :: r, d => nestMax r d
+
+theorem tokenizeAux_depth : ∀ (f : Nat) (bs : Bytes) (d : Nat) (acc toks : List Tok) (rest : Bytes),
+    tokenizeAux f bs d acc = some (toks, rest) →
+    ∃ ts, toks = acc.reverse ++ ts ∧ nestMax ts d ≤ maxDepth := by
+  intro f
+  induction f with
+  | zero => intro bs d acc toks rest h; simp [tokenizeAux] at h
+  | succ f ih =>
+    intro bs d acc toks rest h
+    cases bs with
+    | nil => simp [tokenizeAux] at h
+    | cons c r =>
+      unfold tokenizeAux at h
+      split at h
+      · split at h
+        · cases h
+        · split at h
+          · cases h
+            exact ⟨[Tok.fin], by simp, by simp [nestMax]⟩
+          · obtain ⟨ts, h1, h2⟩ := ih r _ _ toks rest h
+            exact ⟨Tok.fin :: ts, by simp [h1], by simpa [nestMax] using h2⟩
+      · split at h
+        · split at h
+          · cases h
+          · rename_i hd
+            obtain ⟨ts, h1, h2⟩ := ih r _ _ toks rest h
+            refine ⟨Tok.lst :: ts, by simp [h1], ?_⟩
+            simp only [nestMax]
+            exact Nat.max_le.2 ⟨by omega, h2⟩
+        · split at h
+          · split at h
+            · cases h
+            · rename_i hd
+              obtain ⟨ts, h1, h2⟩ := ih r _ _ toks rest h
+              refine ⟨Tok.dct :: ts, by simp [h1], ?_⟩
+              simp only [nestMax]
+              exact Nat.max_le.2 ⟨by omega, h2⟩
+          · split at h
+            · split at h
+              · cases h
+              · rename_i ds r' hs
+                split at h
+                · cases h
+                  exact ⟨[Tok.int ds], by simp, by simp [nestMax]⟩
+                · obtain ⟨ts, h1, h2⟩ := ih r' _ _ toks rest h
+                  exact ⟨Tok.int ds :: ts, by simp [h1], by simpa [nestMax] using h2⟩
+            · split at h
+              · split at h
+                · cases h
+                · rename_i s r' hs
+                  split at h
+                  · cases h
+                    exact ⟨[Tok.str s], by simp, by simp [nestMax]⟩
+                  · obtain ⟨ts, h1, h2⟩ := ih r' _ _ toks rest h
+                    exact ⟨Tok.str s :: ts, by simp [h1], by simpa [nestMax] using h2⟩
+              · cases h
+
+/-- A payload accepted by the guard never nests deeper than `maxDepth` = 32. -/
+theorem tokenize_depth {bs : Bytes} {toks : List Tok} {rest : Bytes} (h : tokenize bs = some (toks, rest)) :
+    nestMax toks 0 ≤ maxDepth := by
+  obtain ⟨ts, h1, h2⟩ := tokenizeAux_depth _ bs 0 [] toks rest h
+  simp at h1; subst h1; exact h2
+
 /-! ### decimal text round trip -/
 
 theorem digitsVal_append (xs ys : Bytes) (a : Nat) :
